@@ -11,10 +11,10 @@ let run () =
   (try
      while true do
        let line = input_line stdin in
-       match split_ws line with
-       | [ fname; via; raw; fields; render; stable ] when via <> "unreachable" ->
+       match (match split_ws line with [ a; b; c; d; e; f; w ] -> [ a; b; c; d; e; f ], w | l -> l, "") with
+       | [ fname; via; raw; fields; render; stable ], width when via <> "unreachable" ->
          incr n;
-         Hashtbl.replace distinct (fname ^ raw) ();
+         Hashtbl.replace distinct (fname ^ raw ^ width) ();
          let f = List.find (fun f -> string_of_coq f.f_name = fname) obs_fieldlists in
          let rawz = z_of_string raw in
          let expect = String.concat ","
